@@ -33,7 +33,9 @@ import (
 const (
 	ringKey      = "ring"
 	retention    = 10 * time.Second
-	obsoleteTime = 10 * time.Second
+	// shorter than the tombstone retention (as with the defaults, 30 s vs 5 min): housekeeping that applied this
+	// timeout to tombstones would discard them early
+	obsoleteTime = 3 * time.Second
 )
 
 // ---------- workload ----------
@@ -71,6 +73,8 @@ func (e event) String() string {
 		return fmt.Sprintf("deliver(m%d→n%d)", e.a, e.b)
 	case "pushpull":
 		return fmt.Sprintf("pushpull(n%d→n%d)", e.a, e.b)
+	case "housekeep":
+		return fmt.Sprintf("housekeep(n%d)", e.a)
 	}
 	return e.kind
 }
@@ -480,6 +484,8 @@ func (c *cluster) apply(e event) bool {
 		synctest.Wait()
 		c.nodes[e.b].ref.join(c.nodes[e.a].ref)
 		touched = e.b
+	case "housekeep":
+		c.nodes[e.a].kv.VerifCleanupObsoleteEntries()
 	case "tick":
 		time.Sleep(time.Second)
 	case "jump":
@@ -646,6 +652,10 @@ func (sc scenario) events(poolSize int) []event {
 				evs = append(evs, event{kind: "pushpull", a: i, b: j})
 			}
 		}
+	}
+	// periodic housekeeping of a node (removal of keys marked as deleted): touches nothing else
+	for i := 0; i < sc.nodes; i++ {
+		evs = append(evs, event{kind: "housekeep", a: i})
 	}
 	evs = append(evs, event{kind: "tick"})
 	if sc.jumps > 0 {
